@@ -6,6 +6,18 @@ type Bytes struct {
 	Len *Term // 64-bit
 	Vec []*Term
 	At  func(i *Term) *Term // defined for 0 <= i < Len
+	// when the sequence is a window of another one: this == Base[BaseOff : BaseOff+Len]
+	Base    *Bytes
+	BaseOff *Term
+}
+
+func (b *Bytes) withBase(base *Bytes, off *Term) *Bytes {
+	if base.Base != nil {
+		b.Base, b.BaseOff = base.Base, Add(base.BaseOff, off)
+	} else {
+		b.Base, b.BaseOff = base, off
+	}
+	return b
 }
 
 func VecBytes(v []*Term) *Bytes {
@@ -16,6 +28,12 @@ func VecBytes(v []*Term) *Bytes {
 				return C(8, 0)
 			}
 			return v[int(i.Val)]
+		}
+		// a vector that is a window of one SMT array reads back as a select (no ite chain)
+		if len(v) > 0 {
+			if arr, base, ok := arrayWindow(v); ok {
+				return Select(arr, Add(i, CI(base)))
+			}
 		}
 		lo, hi := 0, len(v)-1
 		if l, h, ok := boundsOf(i); ok {
@@ -114,7 +132,10 @@ func SliceBytes(a *Bytes, lo, hi *Term) *Bytes {
 	if a.Vec != nil && lo.IsConst() && hi.IsConst() {
 		l, h := int64(lo.Val), int64(hi.Val)
 		if l >= 0 && l <= h && h <= int64(len(a.Vec)) {
-			return VecBytes(a.Vec[l:h])
+			if l == 0 && h == int64(len(a.Vec)) {
+				return a
+			}
+			return VecBytes(a.Vec[l:h]).withBase(a, lo)
 		}
 	}
 	if lo.IsConst() && lo.Val == 0 && hi == a.Len {
@@ -122,7 +143,11 @@ func SliceBytes(a *Bytes, lo, hi *Term) *Bytes {
 	}
 	r := &Bytes{Len: Sub(hi, lo)}
 	r.At = memoAt(func(i *Term) *Term { return a.At(Add(i, lo)) })
-	return r.Norm()
+	n := r.Norm()
+	if n.Base == nil {
+		n.withBase(a, lo)
+	}
+	return n
 }
 func RepeatByte(p *Term, n *Term) *Bytes {
 	r := &Bytes{Len: n}
@@ -170,7 +195,50 @@ func MergeBytes(c *Term, a, b *Bytes) *Bytes {
 		}
 		return VecBytes(v)
 	}
+	if a.Base != nil && a.Base == b.Base {
+		// two windows of the same sequence: one window with a merged offset (reads stay single selects)
+		off := Ite(c, a.BaseOff, b.BaseOff)
+		ln := Ite(c, a.Len, b.Len)
+		base := a.Base
+		r := &Bytes{Len: ln, Base: base, BaseOff: off}
+		r.At = memoAt(func(i *Term) *Term { return base.At(Add(i, off)) })
+		return r
+	}
 	r := &Bytes{Len: Ite(c, a.Len, b.Len)}
 	r.At = memoAt(func(i *Term) *Term { return Ite(c, a.At(i), b.At(i)) })
 	return r.Norm()
+}
+
+
+var windowMemo = map[*Term]struct {
+	arr  *Term
+	base int64
+	n    int
+	ok   bool
+}{}
+
+// arrayWindow: v[j] == select(arr, base+j) for all j (checked once per vector, keyed by its first element and length).
+func arrayWindow(v []*Term) (*Term, int64, bool) {
+	f := v[0]
+	if f.Op != "select" || !f.Args[1].IsConst() {
+		return nil, 0, false
+	}
+	if m, ok := windowMemo[f]; ok && m.n == len(v) {
+		return m.arr, m.base, m.ok
+	}
+	arr, base := f.Args[0], int64(f.Args[1].Val)
+	ok := true
+	for j, x := range v {
+		if x.Op != "select" || x.Args[0] != arr || !x.Args[1].IsConst() || int64(x.Args[1].Val) != base+int64(j) {
+			ok = false
+			break
+		}
+	}
+	windowMemo[f] = struct {
+		arr  *Term
+		base int64
+		n    int
+		ok   bool
+	}{arr, base, len(v), ok}
+	return arr, base, ok
 }
